@@ -399,6 +399,10 @@ def one_or_many_serde_shape(ctx, prog):
     from replay import run_replay
     name = 'OneOrMany/read-by-the-derived-deserialiser-without-per-variant-helper'
     helpers = [g.name for g in prog.funcs if re.search(r'one_or_many\.rs[^>]*>::deserialize::.*<impl at [^>]*>::deserialize$', g.name)]
+    # an untagged enum's derive calls a variant's `deserialize_with` function directly: a free function of the module returning `D::Error`
+    # (free functions are printed without their module path; identity_core's one legitimate helper of this kind is OneOrSet's)
+    helpers += [g.name for g in prog.funcs if re.match(r'\w+$', g.name) and re.search(r'Deserializer<.*>>::Error>', g.ret_ty or '')
+                and g.name != 'deserialize_non_empty_set']
     derives = [g.name for g in prog.funcs if re.search(r'<impl at [^>]*one_or_many\.rs[^>]*>::deserialize$', g.name)]
     if not derives:
         ctx.add(Ob(name, 'M', INCONCLUSIVE, detail='no derived Deserialize found in one_or_many.rs'))
